@@ -30,16 +30,26 @@ ASSUMPTIONS = [
 ]
 
 
+def _c05_decls(tier):
+    """C05's declarations; in the thorough tier every run is made four times here, so the second field of a pair is
+    taken from the first 8 menu entries only"""
+    quick8 = {m.tag for m in M.MENU[:M.QUICK_MENU]}
+    for base, tags in c05.decls(tier):
+        if tier == "thorough" and len(tags) > 1 and tags[1] not in quick8:
+            continue
+        yield base, tags
+
+
 def decls(tier):
     out = []
-    for base, tags in c05.decls(tier):
-        if tier != "thorough" and base == "DataClass" and len(tags) > 1:
-            continue      # the lookup loops do not depend on the base class; the quick tier keeps 1-field DataClasses
+    for base, tags in _c05_decls(tier):
+        if base == "DataClass" and len(tags) > 1:
+            continue      # the lookup loops do not depend on the base class: 1-field DataClasses only
         out.append((base, tags))
     # function declarations: the same menu as keyword parameters (fields that make no sense for functions are
     # rejected at declaration time by utype and counted)
     seen = set()
-    for base, tags in c05.decls(tier):
+    for base, tags in _c05_decls(tier):
         if base != "Schema" or tags in seen:
             continue
         seen.add(tags)
@@ -47,7 +57,7 @@ def decls(tier):
             continue
         out.append(("func", tags))
         # positional binding (parameters bound by position are excluded from the keyword lookup)
-        if tier == "thorough" or any(M.MENU_BY_TAG[t].deps for t in tags) or len(seen) % 5 == 0:
+        if any(M.MENU_BY_TAG[t].deps for t in tags) or len(seen) % (2 if tier == "thorough" else 5) == 0:
             out.append(("funcpos", tags))
     return out
 
